@@ -118,3 +118,50 @@ def iter_feedback(rep, prog, rule="ITER-FEEDBACK"):
             rep.ok(rule, "posix " + meth, how="inner.%s(ts.to_itimestamp_const())" % meth)
         else:
             rep.violation(rule, "posix " + meth, "POSIX %s does not pass the unmodified instant as an ITimestamp" % meth, f.loc())
+
+
+def find_key(rep, prog, rule="FIND-KEY"):
+    """find-or-create helpers must compare every input that the created element records"""
+    rep.rule(rule, "in TzifOwned::find_or_create_local_time_type / find_or_create_designation every parameter that flows into the "
+                   "element created on the miss path also flows into the match condition of the search (a lookup that ignores part "
+                   "of the key returns an element that differs from what would have been created)")
+    for crate in ("jiff", "jiff_static"):
+        for name in ("find_or_create_local_time_type", "find_or_create_designation"):
+            cands = [f for f in prog.fns.values() if f.crate == crate and f.path.endswith(">>::" + name)]
+            if not cands:
+                if crate in prog.crates:
+                    rep.anchor_missing("%s %s" % (crate, name))
+                continue
+            f = cands[0]
+            T = Terms(f)
+            params = {i: ("param", i, f["locals"][i].get("n") or "") for i in range(2, f["argc"] + 1)}
+            created = set()
+            for bi, b in enumerate(f.blocks):
+                for si, s in enumerate(b["st"]):
+                    if s["s"] == "=" and s["rv"]["k"] == "agg" and s["rv"].get("adt", "").endswith("TzifLocalTimeType"):
+                        tt = T.rvalue(s["rv"], 0, (bi, si))
+                        for x in walk(tt):
+                            if x in params.values():
+                                created.add(x)
+                t = b["term"]
+                if t["t"] == "call" and (t.get("path", "").endswith("::push_str") or t.get("path", "").endswith("Vec::<T, A>::push")):
+                    for i in range(1, len(t["args"])):
+                        for x in walk(T.at_call(bi, t, i)):
+                            if x in params.values():
+                                created.add(x)
+            compared = set()
+            for bi, b in enumerate(f.blocks):
+                t = b["term"]
+                if t["t"] == "switch":
+                    for x in walk(T.operand(t["op"], 0, (bi, "term"))):
+                        if x in params.values():
+                            compared.add(x)
+            key = "%s %s" % (crate, name)
+            missing = created - compared
+            if not created:
+                rep.violation(rule, key, "shape not recognised: no created element uses a parameter", f.loc())
+            elif missing:
+                rep.violation(rule, key, "the created element records %s but the search never compares %s"
+                              % (sorted(p[2] for p in created), sorted(p[2] for p in missing)), f.loc())
+            else:
+                rep.ok(rule, key, how="compares %s" % sorted(p[2] for p in compared))
